@@ -3,6 +3,8 @@
 pub struct C08 {
     /// (segments, codomain of the values)
     pub segs: Vec<(Vec<Vec<usize>>, usize)>,
+    /// arguments of the one-argument families (quick: = segs; thorough: up to 5 segments of length <= 3)
+    pub singles: Vec<(Vec<Vec<usize>>, usize)>,
     pub raw_sizes: Vec<Vec<usize>>,
     pub small_maps: Vec<(Vec<usize>, usize)>,
     pub families: Vec<(&'static str, u64)>,
@@ -38,6 +40,25 @@ impl C08 {
                 }
             }
         }
+        let mut singles = segs.clone();
+        if !quick {
+            singles.clear();
+            for c in 0..=3usize {
+                let ls = ohmc_core::uni::lists(c, if c == 3 { 2 } else { 3 });
+                for m in 0..=(if c == 3 { 4usize } else { 5 }) {
+                    let cnt = (ls.len() as u64).pow(m as u32);
+                    for mut i in 0..cnt {
+                        let mut v = vec![];
+                        for _ in 0..m {
+                            v.push(ls[(i % ls.len() as u64) as usize].clone());
+                            i /= ls.len() as u64;
+                        }
+                        singles.push((v, c));
+                    }
+                }
+            }
+        }
+        let n1 = singles.len() as u64;
         let raw_sizes = ohmc_core::uni::lists(4, 3);
         let mut small_maps = vec![];
         for n in 0..=4usize {
@@ -50,16 +71,16 @@ impl C08 {
         let ns = segs.len() as u64;
         let families: Vec<(&'static str, u64)> = vec![
             ("new", raw_sizes.len() as u64 * 12 * 11),
-            ("basic", ns),
+            ("basic", n1),
             ("pairs", ns * ns),
-            ("map_indexes", ns * small_maps.len() as u64),
-            ("map_values", ns * small_maps.len() as u64),
+            ("map_indexes", n1 * small_maps.len() as u64),
+            ("map_values", n1 * small_maps.len() as u64),
             ("flatmap", ns * ns),
-            ("iterators", ns),
+            ("iterators", n1),
             ("operations_new", 4 * 4 * 4),
             ("long", (0..=8u32).map(|m| 3u64.pow(m)).sum()),
         ];
-        C08 { segs, raw_sizes, small_maps, families }
+        C08 { segs, singles, raw_sizes, small_maps, families }
     }
 
     pub fn run(&self, fam: &str, i: u64, loc: &mut ohmc_core::explore::Local) {
@@ -119,7 +140,7 @@ impl C08 {
                 Ok(!expect)
             }
             "basic" => {
-                let (x, c) = &self.segs[i as usize];
+                let (x, c) = &self.singles[i as usize];
                 let ic = seg(x, *c);
                 ensure(dec_ic(&ic)? == *x, || "build/decode round trip".into())?;
                 ensure(ic.len() == x.len() && HasLen::<K>::len(&ic) == x.len(), || "len".into())?;
@@ -160,7 +181,7 @@ impl C08 {
                 Ok(!x.is_empty() && !y.is_empty())
             }
             "map_indexes" => {
-                let (x, c) = &self.segs[(i / nm) as usize];
+                let (x, c) = &self.singles[(i / nm) as usize];
                 let (m, mt) = &self.small_maps[(i % nm) as usize];
                 let ic = seg(x, *c);
                 let map = ff(m, *mt);
@@ -183,7 +204,7 @@ impl C08 {
                 Ok(m.len() >= 2)
             }
             "map_values" => {
-                let (x, c) = &self.segs[(i / nm) as usize];
+                let (x, c) = &self.singles[(i / nm) as usize];
                 let (m, mt) = &self.small_maps[(i % nm) as usize];
                 // here the small map is read as a function g: |m| -> mt applied to the values
                 let ic = seg(x, *c);
@@ -242,7 +263,7 @@ impl C08 {
                 Ok(nt)
             }
             "iterators" => {
-                let (x, c) = &self.segs[i as usize];
+                let (x, c) = &self.singles[i as usize];
                 let n = x.len();
                 // all call sequences over {next, len, size_hint} of length n + 2
                 let depth = n + 2;
